@@ -11,12 +11,24 @@ IDXVALS = ["x", "y", "z", "x.y", "xy", ""]
 NUMS = ["1", "2", "10", "1.5", "0.1", "-3", "100", "1e2", "007", "2.50", "0", "010", "0017", "8", "1234567890123456", "9007199254740991"]
 TABLES = ["tbl", "tb2"]
 
+# binary keys: bytes below and above 0x10 mixed, values that are prefixes of each other, different lengths
+BINKEYS = ["\x01\x23", "\x12\x03", "\x0a\x0b", "\xab", "\x01", "a", "\x00", ""]
 SCHEMAS = [
     dict(hash=("h", "S"), range=None),
     dict(hash=("h", "S"), range=("r", "S")),
     dict(hash=("h", "S"), range=("r", "N")),
     dict(hash=("h", "N"), range=None),
+    dict(hash=("h", "S"), range=None),
+    dict(hash=("h", "S"), range=("r", "S")),
+    dict(hash=("h", "B"), range=None),
+    dict(hash=("h", "S"), range=("r", "B")),
 ]
+
+
+def keyval(r, typ, spool):
+    if typ == "S": return S(r.choice(spool))
+    if typ == "N": return N(r.choice(NUMKEYS))
+    return {"B": r.choice(BINKEYS)}
 
 
 class Gen:
@@ -49,10 +61,10 @@ class Gen:
         r = self.r
         k = {}
         hn, ht = schema["hash"]
-        k[hn] = S(r.choice(HASHES)) if ht == "S" else N(r.choice(NUMKEYS))
+        k[hn] = keyval(r, ht, HASHES)
         if schema["range"]:
             rn, rt = schema["range"]
-            k[rn] = S(r.choice(RANGES)) if rt == "S" else N(r.choice(NUMKEYS))
+            k[rn] = keyval(r, rt, RANGES)
         if not exact:
             q = r.random()
             if q < 0.04 and schema["range"]: del k[schema["range"][0]]
@@ -114,6 +126,9 @@ class Gen:
             # inverted index: keyed on the table's own key attributes
             op["gsi"].append(dict(name="inv", hash=dict(name=schema["range"][0]), range=dict(name=schema["hash"][0]), throughput=True))
             t["indexes"].append(dict(name="inv", hash=schema["range"][0], range=schema["hash"][0]))
+        if r.random() < 0.02 and op["gsi"]:
+            # an index name of two characters: refused by the request validation of the SDK v1 client only
+            op["gsi"][0]["name"] = "gx"; t["indexes"][0]["name"] = "gx"
         if not op["gsi"]: del op["gsi"]
         if not op["lsi"]: del op["lsi"]
         if r.random() < 0.03:
@@ -189,7 +204,9 @@ class Gen:
             ("REMOVE l[0]", {}, {}), ("REMOVE l[0], l[1]", {}, {}), ("SET l[1] = :v", {}, {":v": S(v)}),
             ("SET m.x = :v", {}, {":v": S(v)}), ("REMOVE m.x", {}, {}), ("SET m = :m", {}, {":m": {"M": {"x": S(v)}}}),
             ("SET s = :v REMOVE x", {}, {":v": S(v)}), ("SET x = :x", {}, {":x": self.value(2)}),
-            ("SET #n = :v", {"#n": "s"}, {":v": S(v)}), ("SET g = f", {}, {}), ("SET x = g, g = :v", {}, {":v": S(v)}),
+            ("SET #n = :v", {"#n": "s"}, {":v": S(v)}), ("SET g = f", {}, {}),
+            ("REMOVE #n", {"#n": r.choice(["g", "f", "s", "x"])}, {}), ("DELETE #n :s", {"#n": "ss"}, {":s": {"SS": ["p", "q", "r"]}}),
+            ("REMOVE #n.x", {"#n": "m"}, {}), ("SET #n = :v REMOVE #o", {"#n": "g", "#o": "f"}, {":v": S(v)}), ("SET x = g, g = :v", {}, {":v": S(v)}),
             ("SET g = :n", {}, {":n": N("1")}), ("SET g :v", {}, {":v": S(v)}), ("SET", {}, {}), ("g = :v", {}, {":v": S(v)}),
             ("SET size = :v", {}, {":v": S(v)}), ("ADD g :v", {}, {":v": S(v)}), ("SET h = :v", {}, {":v": S(v)}),
             ("SET n = :n", {}, {":n": N(r.choice(["9007199254740993", "0.1", "1e2", "007", "2.50", "-0"]))}),
@@ -201,9 +218,9 @@ class Gen:
         if index is None:
             hn, ht = t["schema"]["hash"]
             rng = t["schema"]["range"]
-            hv = S(r.choice(HASHES)) if ht == "S" else N(r.choice(NUMKEYS))
+            hv = keyval(r, ht, HASHES)
             rn = rng[0] if rng else None
-            rv = lambda: (S(r.choice(RANGES)) if rng[1] == "S" else N(r.choice(NUMKEYS)))
+            rv = lambda: keyval(r, rng[1], RANGES)
         else:
             hn, rn = index["hash"], index["range"]
             hv = S(r.choice(IDXVALS)) if hn in ("g", "f") else S(r.choice(RANGES if hn == "r" else HASHES))
@@ -340,7 +357,11 @@ class Gen:
                 ops += self.data_op(c, tabs[c], len(ops))
                 if r.random() < 0.8: ops.append(dict(op="deactivate_force_failure", client=c))
             elif k < 0.93:
-                t = r.choice(tabs[c]); ops.append(dict(op="clear_table", client=c, table=t["name"]))
+                t = r.choice(tabs[c])
+                # the description is read right before and right after (no write in between): counts follow the table
+                if r.random() < 0.6: ops.append(dict(op="describe_table", client=c, table=t["name"]))
+                ops.append(dict(op="clear_table", client=c, table=t["name"]))
+                if r.random() < 0.7: ops.append(dict(op="describe_table", client=c, table=t["name"]))
             elif k < 0.95:
                 t = r.choice(tabs[c]); ops.append(dict(op="delete_table", client=c, table=t["name"])); tabs[c].remove(t)
             elif k < 0.97:
@@ -534,6 +555,10 @@ class ExprGen(Gen):
             return dict(op="match", expr=e, item={"a": own, "b": S("x")}, names={}, values={":v": other, ":w": S("x")})
         ctx = dict(names={}, values={}, item=self.expr_item())
         e = self.cond_expr(ctx, self.r.randrange(0, depth + 1))
+        if r.random() < 0.12:
+            # the same sentence written without the optional blanks around operators, commas and parentheses
+            import re as _re
+            e = _re.sub(r" ?(<>|<=|>=|=|<|>|,|\(|\)) ?", lambda m: r.choice([m.group(1), m.group(1) + " ", " " + m.group(1), m.group(0)]), e)
         return dict(op="match", expr=e, item=ctx["item"], names=ctx["names"], values=ctx["values"])
 
     # ---- update expressions: every action targets a different top-level attribute ----
